@@ -440,9 +440,14 @@ class SqantiTSVPrinter(AbstractAssignmentPrinter):
             read_exons = read_assignment.exons
             read_introns = junctions_from_blocks(read_exons)
             all_canonical = str(self.io_support.check_sites_are_canonical(read_introns, gene_info, strand))
-            seq_A_downstream_TTS, perc_A_downstreamTTS = \
-                self.io_support.check_downstream_polya((read_assignment.start(), read_assignment.end()), gene_info, strand)
-            perc_A_downstreamTTS = "%0.2f" % perc_A_downstreamTTS
+            if strand in ('+', '-'):
+                seq_A_downstream_TTS, perc_A_downstreamTTS = \
+                    self.io_support.check_downstream_polya((read_assignment.start(), read_assignment.end()), gene_info, strand)
+                perc_A_downstreamTTS = "%0.2f" % perc_A_downstreamTTS
+            else:
+                # unknown strand ('.'): the 3' end is unknown (the window used to be taken as for '-')
+                perc_A_downstreamTTS = "NA"
+                seq_A_downstream_TTS = "NA"
         else:
             all_canonical = "NA"
             perc_A_downstreamTTS = "NA"
@@ -549,6 +554,11 @@ class IOSupport:
 
     # TODO: use built-in function for extracting ref seq
     def check_sites_are_canonical(self, read_introns, gene_info, strand):
+        if strand not in ('+', '-'):
+            # unknown strand ('.'): canonical when the whole intron chain is canonical on one of the two strands
+            # (the sites used to be looked up as for '-', so the answer changed with the orientation of the locus)
+            return self.check_sites_are_canonical(read_introns, gene_info, '+') or \
+                   self.check_sites_are_canonical(read_introns, gene_info, '-')
         for intron in read_introns:
             # the answer depends on the strand, so the strand is a part of the key
             site_key = (intron, strand)
